@@ -48,6 +48,31 @@ check("C20", "fault_enumeration",
       "snapshot/seam-log oracle", "DESIGN.md §3 C20")
 
 
+check("C07", "fault_enumeration",
+      "Seeded modules on the simulated disk, histories of 1..3 doctrans commands through the real CLI/SDK entry. "
+      "Fault-free commands are judged by A1-A4 (parses; AST identical after erasing docstrings/annotations/type "
+      "comments; comment token sequence; untouched lines byte-identical). For the error clause A5 the places where a "
+      "command can fail are enumerated per run: every applicable I/O error at every seam call (torn closes with three "
+      "prefixes), an injected exception at the first/middle/last line event of every interval between seam calls and "
+      "at every line event after the first write-mode open, plus seeded line events; the file must be byte-identical "
+      "whenever the command raised.",
+      "Programs and configurations are sampled; faults one-shot; A5 covers Exception subclasses, not kill/"
+      "KeyboardInterrupt; re-visits of a `with` header on normal exit are not injection points (only __exit__ can fail "
+      "there, modelled by the close faults); one-line defs and comments inside a rewritten header's parentheses are "
+      "listed known findings.",
+      "deterministic simulation: seeded Hypothesis programs + enumerated I/O faults and line-event exception "
+      "injection, AST/token/byte oracle", "DESIGN.md §3 C07")
+
+check("C11", "exploration",
+      "Every operation runs under a virtual clock (count of cdd line events) with budget B0 + B1*n; token-alphabet "
+      "docstrings exhaustive to length 3 (quick) / 4-5 (thorough) and seeded beyond, adversarial prose through all nine "
+      "emitters, truncated (torn-write) inputs, and doctrans applied 1..3 times to its own output on the simulated disk.",
+      "Decides non-termination and gross blow-ups (25x measured envelope), not the asymptotic class; C-level hangs only "
+      "by a 120 s wall backstop.",
+      "deterministic simulation: virtual step clock (sys.settrace line events) with budget, exhaustive+seeded inputs, "
+      "repeated-application histories", "DESIGN.md §3 C11")
+
+
 def main():
     man = {
         "version": 1,
@@ -82,7 +107,7 @@ def main():
 
 
 PENDING = {k: "check under construction in this session (designed in DESIGN.md §3); not yet claimed"
-           for k in ("C07", "C10", "C11", "C12", "C13", "C16", "C17", "C18", "C19")}
+           for k in ("C10", "C12", "C13", "C16", "C17", "C18", "C19")}
 
 if __name__ == "__main__":
     main()
